@@ -79,10 +79,50 @@ def bernoulli_sites(rep: Report, fi: FuncInfo, prob_attr: str) -> int:
     return n
 
 
+def params_evaluated(init: FuncInfo, param: str):
+    """The constructor (module helpers inlined, `to_tensor` / `torch.tensor` as the identity) run for the probabilities
+    -0.1, 0, 0.3, 1, 1.1: the admissible ones must be stored unchanged, the others rejected."""
+    from ..constfold import PySeq, Unfoldable
+    from ..frag import FragRaise, FragReturn, run_fragment
+
+    funcs = {nm: f.node for nm, f in init.module.functions.items()}
+    body = [st for st in init.body if not (isinstance(st, ast.Expr) and isinstance(st.value, ast.Call) and unparse(st.value.func) == "super().__init__")]
+    for v, admissible in ((-0.1, False), (0.0, True), (0.3, True), (1.0, True), (1.1, False), (0, True), (1, True)):
+        attrs: Dict[str, object] = {}
+        names = {p_: None for p_ in init.params if p_ != "self"}
+        names.update({param: v, "args": PySeq([]), "kwargs": {}})
+        try:
+            run_fragment(body, names, attrs, funcs=funcs, ctors={"to_tensor": lambda x, *a, **k: x}, max_steps=20000, attrs_live=True)
+        except FragRaise:
+            if admissible:
+                return VIOLATION, f"the admissible probability {v} is rejected by the constructor"
+            continue
+        except FragReturn:
+            pass
+        except (Unfoldable, TypeError, ValueError) as exc:
+            return None, str(exc)
+        got = attrs.get(f"self.{param}")
+        if isinstance(got, list) and len(got) == 1:
+            got = got[0]
+        if not isinstance(got, (int, float)) or isinstance(got, bool):
+            return None, f"self.{param} is not a number after the constructor ({got!r})"
+        if not admissible:
+            return VIOLATION, f"the value {v}, which is not a probability, is accepted by the constructor"
+        if abs(float(got) - float(v)) > 1e-12:
+            return VIOLATION, f"configured probability {v} is stored as {got!r}"
+    return OK, "probabilities 0, 0.3, 1 stored unchanged; -0.1 and 1.1 rejected"
+
+
 def rule_params(repo: Repo, rep: Report, cname: str, param: str) -> int:
     init = repo.func(DG, f"{cname}.__init__")
     asg = [s for s in stmts_of(init.body) if isinstance(s, ast.Assign) and attr_chain(s.targets[0]) == f"self.{param}"]
     ok = len(asg) == 1 and (match(asg[0].value, f"to_tensor({param})") is not None or match(asg[0].value, param) is not None or match(asg[0].value, f"torch.tensor({param})") is not None)
+    if not ok and len(asg) == 1 and isinstance(asg[0].value, ast.Call) and isinstance(asg[0].value.func, ast.Name) and asg[0].value.func.id in init.module.functions:
+        # validation and conversion moved into a module-level helper: the constructor is evaluated on sample probabilities
+        est, edetail = params_evaluated(init, param)
+        if est is not None:
+            rep.add("PARAM", init, f"self.{param} = {unparse(asg[0].value)} (constructor evaluated on -0.1, 0, 0.3, 1, 1.1)", est, edetail, node=asg[0])
+            return 2
     wrong_p = len(asg) == 1 and any(isinstance(x, (ast.BinOp, ast.Constant)) for x in ast.walk(asg[0].value) if not (isinstance(x, ast.Constant) and isinstance(x.value, str)))
     rep.shape(ok, wrong_p, "PARAM", init, f"self.{param} = {unparse(asg[0].value) if asg else '?'}", "configured probability stored unchanged", "the stored probability is not the configured one", node=asg[0] if asg else init.node)
     val = [s for s in stmts_of(init.body) if isinstance(s, ast.If) and any(isinstance(x, ast.Raise) for x in s.body)]
